@@ -208,6 +208,12 @@ def _file_case(args):
         before = observe()
         if failure == "gone":
             os.replace(path, path + ".away")
+        elif failure.startswith("badline"):
+            # a line the loader cannot parse (a closing bracket without an opening one), after a prefix of good rules
+            lines = good.splitlines()
+            k = {"badline-first": 0, "badline-mid": len(P), "badline-last": len(lines)}[failure]
+            with open(path, "w") as f:
+                f.write("\n".join(lines[:k] + ["p, x), y, z"] + lines[k:]) + "\n")
         else:
             lines = good.splitlines()
             k = {"shortg-first": len(P), "shortg-last": len(lines), "shortg-only": 0}[failure]
@@ -228,7 +234,7 @@ def file_failure_stream(ctx, res, deep):
     jobs = []
     for shape in ("rbac", "dom"):
         P, G, G2, R = ec.universe(shape)
-        for failure in ("gone", "shortg-first", "shortg-last", "shortg-only"):
+        for failure in ("gone", "shortg-first", "shortg-last", "shortg-only", "badline-first", "badline-mid", "badline-last"):
             for pre in (("full",), ("remove",)):
                 jobs.append((shape, "file", pre, failure))
                 jobs.append((shape, "filtered", pre, failure))
@@ -246,7 +252,7 @@ def file_failure_stream(ctx, res, deep):
             continue
         if before != after:
             diff = next(k for k in before if before[k] != after[k])
-            kind = "roleDefinition" if failure.startswith("shortg") else failure
+            kind = "roleDefinition" if failure.startswith("shortg") else failure.split("-")[0]
             res.violation({"signature": f"C11:file:{adapter}:{kind}:{diff}", "stream": "file-failure", "job": [shape, adapter, list(pre), failure],
                            "what": f"{shape} model, {adapter} file adapter, state {list(pre)}: load_policy raised ({raised}; failure {failure}) but {diff} changed from {before[diff]} to {after[diff]}",
                            "expected": before[diff], "observed": after[diff]})
@@ -265,7 +271,7 @@ def run(ctx):
         "RBAC and domain models, Enforcer and AsyncEnforcer, 3 initial policies x 5 adapter stores (two containing a grouping rule shorter than the "
         "role definition at different positions) x EVERY failure point k = 0..n of the delivering adapter (and no failure), preceded by 0-2 and "
         "followed by 3 random management calls; after every call policy and ~40 queries are compared with the state before (failed reload), "
-        "with a fresh enforcer (successful reload, later use) and with the Lean model; ordering-failure stream and file-failure stream (file gone / short grouping line, FileAdapter and FilteredFileAdapter in 6 states) judged before = after incl. is_filtered(); non-trivial/distinct = (configuration, history)"
+        "with a fresh enforcer (successful reload, later use) and with the Lean model; ordering-failure stream and file-failure stream (file gone / unparsable line after a prefix of good ones / short grouping line, FileAdapter and FilteredFileAdapter in 6 states) judged before = after incl. is_filtered(); non-trivial/distinct = (configuration, history)"
     )
     res.exhaustive = True
     return res
